@@ -208,4 +208,1136 @@ theorem points_to_dibits_eq (ps : List Nat) :
   | ok r => simp [ofR]
 
 
+/-! ### index loops over a pre-allocated array -/
+
+/-- the index list of a `for i in range(k, k + m)` loop -/
+def idxs (k m : Nat) : List Int := (List.range m).map (fun j => ((k + j : Nat) : Int))
+
+theorem idxs_zero (k : Nat) : idxs k 0 = [] := rfl
+theorem idxs_succ (k m : Nat) : idxs k (m + 1) = (k : Int) :: idxs (k + 1) m := by
+  unfold idxs
+  rw [List.range_succ_eq_map, List.map_cons, List.map_map]
+  simp only [Nat.add_zero, List.cons.injEq, true_and]
+  apply List.map_congr_left
+  intro j _
+  simp only [Function.comp]; congr 1; omega
+
+theorem range2_idxs (n : Nat) : range2 0 (n : Int) = idxs 0 n := by
+  unfold range2 idxs
+  simp
+
+theorem getI_mid (A B : List Int) (x : Int) : getI (A ++ x :: B) (A.length : Int) = .ok x := by
+  rw [getI_ofNat]; simp
+
+theorem getI_cast_mid (done ts : List Nat) (t : Nat) :
+    getI ((done ++ t :: ts).map (fun x : Nat => (x : Int))) (done.length : Int) = .ok (t : Int) := by
+  rw [getI_ofNat]; simp
+
+theorem getI_cast_end (done : List Nat) :
+    getI (done.map (fun x : Nat => (x : Int))) (done.length : Int) = .error .index := by
+  rw [getI_ofNat]; simp
+
+theorem setArr_mid (lo hi : Int) (A B : List Int) (x v : Int) (h : lo ≤ v ∧ v ≤ hi) :
+    PyArr.setArr lo hi (A ++ x :: B) v (A.length : Int) = .ok (A ++ v :: B) := by
+  unfold PyArr.setArr
+  rw [normIndex_ofNat]
+  have : A.length < (A ++ x :: B).length := by simp
+  simp [this, h]
+
+theorem zeros_succ (m : Nat) : PyArr.zeros ((m + 1 : Nat) : Int) = 0 :: PyArr.zeros (m : Int) := by
+  unfold PyArr.zeros; simp [List.replicate_succ]
+
+/-! ### `tribits_to_points` -/
+
+theorem trans_table : TRELLIS34_ENCODER_STATE_TRANSITION = transition := by decide +kernel
+theorem trans_range : ∀ p ∈ transition, p < 256 := by decide
+
+def t2pBody (tribits : List Int) (i : Int) (x : List Int × Int) : PyM (List Int × Int) :=
+  match x with
+  | (out, state) => do
+    let out ← PyArr.setArr 0 255 out (← getB TRELLIS34_ENCODER_STATE_TRANSITION (state * 8 + (← getI tribits i))) i
+    let state ← getI tribits i
+    pure (out, state)
+
+theorem t2p_loop : ∀ (ts done : List Nat) (A : List Int) (st : Nat), A.length = done.length →
+    (forEach (idxs done.length ts.length) (A ++ PyArr.zeros (ts.length : Int), (st : Int))
+        (t2pBody ((done ++ ts).map (fun x : Nat => (x : Int)))) >>= fun x => pure x.1)
+    = match emit st ts with
+      | .ok ps => .ok (A ++ ps.map (fun x : Nat => (x : Int)))
+      | .error e => .error (errOf e) := by
+  intro ts
+  induction ts with
+  | nil => intro done A st _; simp [idxs, PyArr.zeros, emit]
+  | cons t ts ih =>
+    intro done A st hA
+    rw [List.length_cons, idxs_succ, forEach_cons, zeros_succ, bind_assoc]
+    have hb : t2pBody ((done ++ t :: ts).map (fun x : Nat => (x : Int))) (done.length : Int)
+        (A ++ 0 :: PyArr.zeros (ts.length : Int), (st : Int))
+        = match transition[st * 8 + t]? with
+          | some p => .ok (A ++ (p : Int) :: PyArr.zeros (ts.length : Int), (t : Int))
+          | none => .error .index := by
+      unfold t2pBody
+      simp only [getI_cast_mid, ok_bind]
+      have e : (st : Int) * 8 + (t : Int) = ((st * 8 + t : Nat) : Int) := by push_cast; rfl
+      rw [e, getB_ofNat, trans_table]
+      cases hp : transition[st * 8 + t]? with
+      | none => rfl
+      | some p =>
+        have hr : p < 256 := trans_range p (List.mem_of_getElem? hp)
+        simp only [ok_bind]
+        rw [← hA, setArr_mid 0 255 A _ 0 (p : Int) (by omega)]
+        rfl
+    rw [hb]
+    unfold emit indexR
+    cases hp : transition[st * 8 + t]? with
+    | none => rfl
+    | some p =>
+      simp only [ok_bind]
+      have := ih (done ++ [t]) (A ++ [(p : Int)]) t (by simp [hA])
+      simp only [List.length_append, List.length_cons, List.length_nil, List.append_assoc, List.cons_append,
+        List.nil_append] at this
+      rw [this]
+      cases emit t ts with
+      | error e => rfl
+      | ok ps => simp
+
+/-- `tribits_to_points`, every array of naturals: the model's `tribitsToPoints` (`IndexError` of the table read included) -/
+theorem tribits_to_points_eq (ts : List Nat) :
+    tribits_to_points (ts.map (fun x : Nat => (x : Int))) = ofR (List.map (fun x : Nat => (x : Int))) (tribitsToPoints ts) := by
+  have h : tribits_to_points (ts.map (fun x : Nat => (x : Int)))
+      = (forEach (range2 0 (len (ts.map (fun x : Nat => (x : Int)))))
+          (PyArr.zeros (len (ts.map (fun x : Nat => (x : Int)))), (0 : Int))
+          (t2pBody (ts.map (fun x : Nat => (x : Int)))) >>= fun x => pure x.1) := by
+    unfold tribits_to_points t2pBody; rfl
+  rw [h]
+  simp only [len_eq, List.length_map, range2_idxs]
+  have := t2p_loop ts [] [] 0 rfl
+  simp only [List.nil_append, List.length_nil] at this
+  rw [show ((0 : Nat) : Int) = 0 from rfl] at this
+  rw [this]
+  unfold tribitsToPoints
+  cases emit 0 ts with
+  | error e => rfl
+  | ok ps => rfl
+
+
+
+/-! ### `interleave`, `deinterleave` -/
+
+/-- every item fits `array('b')` (what an array of dibits can hold) -/
+def isChars (d : List Int) : Prop := ∀ x ∈ d, (-128 : Int) ≤ x ∧ x ≤ 127
+
+theorem matrix_table : TRELLIS34_INTERLEAVE_MATRIX = interleaveMatrix := by decide +kernel
+theorem matrix_length : interleaveMatrix.length = 98 := by decide
+
+theorem getB_mid (A B : List Nat) (x : Nat) : getB (A ++ x :: B) (A.length : Int) = .ok (x : Int) := by
+  rw [getB_ofNat]; simp
+
+def intBody (d : List Int) (i : Int) (out : List Int) : PyM (List Int) := do
+  PyArr.setArr (-128) 127 out (← getI d (← getB TRELLIS34_INTERLEAVE_MATRIX i)) i
+
+theorem gatherR_length (d : List Int) : ∀ ms vs, gatherR d ms = .ok vs → vs.length = ms.length := by
+  intro ms
+  induction ms with
+  | nil => intro vs h; simp [gatherR] at h; subst h; rfl
+  | cons m ms ih =>
+    intro vs h
+    unfold gatherR indexR at h
+    cases hv : d[m]? with
+    | none => simp [hv] at h
+    | some v =>
+      simp only [hv] at h
+      cases hg : gatherR d ms with
+      | error e => simp [hg] at h
+      | ok r =>
+        simp only [hg, Except.ok.injEq] at h
+        subst h
+        simp [ih r hg]
+
+theorem int_loop (d : List Int) (hd : isChars d) : ∀ (ms doneM : List Nat) (A B : List Int),
+    TRELLIS34_INTERLEAVE_MATRIX = doneM ++ ms → A.length = doneM.length → B.length = ms.length →
+    forEach (idxs doneM.length ms.length) (A ++ B) (intBody d)
+    = match gatherR d ms with
+      | .ok vs => .ok (A ++ vs)
+      | .error e => .error (errOf e) := by
+  intro ms
+  induction ms with
+  | nil =>
+    intro doneM A B _ _ hB
+    have : B = [] := List.eq_nil_of_length_eq_zero hB
+    subst this
+    simp [idxs, gatherR]
+  | cons m ms ih =>
+    intro doneM A B hM hA hB
+    obtain ⟨b, B', rfl⟩ : ∃ b B', B = b :: B' := by
+      cases B with
+      | nil => simp at hB
+      | cons b B' => exact ⟨b, B', rfl⟩
+    rw [List.length_cons, idxs_succ, forEach_cons]
+    have hb : intBody d (doneM.length : Int) (A ++ b :: B')
+        = match d[m]? with
+          | some v => .ok (A ++ v :: B')
+          | none => .error .index := by
+      unfold intBody
+      rw [hM, getB_mid]
+      simp only [ok_bind, getI_ofNat]
+      cases hv : d[m]? with
+      | none => rfl
+      | some v =>
+        simp only [ok_bind]
+        rw [← hA, setArr_mid (-128) 127 A B' b v (hd v (List.mem_of_getElem? hv))]
+    rw [hb]
+    unfold gatherR indexR
+    cases hv : d[m]? with
+    | none => rfl
+    | some v =>
+      simp only [ok_bind]
+      have := ih (doneM ++ [m]) (A ++ [v]) B' (by rw [hM]; simp) (by simp [hA]) (by simpa using hB)
+      simp only [List.length_append, List.length_cons, List.length_nil, List.append_assoc, List.cons_append,
+        List.nil_append] at this
+      rw [this]
+      cases gatherR d ms with
+      | error e => rfl
+      | ok r => simp
+
+/-- `interleave`, every array of dibit-range items: the model's `interleave` (`IndexError` for a short array included) -/
+theorem interleave_eq (d : List Int) (hd : isChars d) : Transl.Trellis.interleave d = ofR id (Dmr.Trellis.interleave d) := by
+  have h : Transl.Trellis.interleave d = forEach (range2 0 (len TRELLIS34_INTERLEAVE_MATRIX)) (PyArr.zeros 98) (intBody d) := by
+    unfold Transl.Trellis.interleave intBody; rfl
+  rw [h]
+  have hl : len TRELLIS34_INTERLEAVE_MATRIX = ((98 : Nat) : Int) := by rw [matrix_table, len_eq, matrix_length]
+  rw [hl, range2_idxs]
+  have := int_loop d hd TRELLIS34_INTERLEAVE_MATRIX [] [] (PyArr.zeros 98) rfl rfl
+    (by rw [matrix_table, matrix_length]; rfl)
+  simp only [List.nil_append, List.length_nil] at this
+  rw [matrix_table, matrix_length] at this
+  rw [this]
+  unfold Dmr.Trellis.interleave
+  cases hg : gatherR d interleaveMatrix with
+  | error e => rfl
+  | ok vs =>
+    have hvl := gatherR_length d _ _ hg
+    rw [matrix_length] at hvl
+    simp [hvl, ofR]
+
+
+def deintBody (original : List Int) (i : Int) (out : List Int) : PyM (List Int) := do
+  let v ← getI original i
+  PyArr.setArr (-128) 127 out v (← getB TRELLIS34_INTERLEAVE_MATRIX i)
+
+theorem getI_mid' (A B : List Int) (x : Int) (k : Nat) (h : k = A.length) : getI (A ++ x :: B) (k : Int) = .ok x := by
+  subst h; exact getI_mid A B x
+
+theorem deint_loop (n : Nat) : ∀ (ms doneM : List Nat) (vs doneV out : List Int),
+    TRELLIS34_INTERLEAVE_MATRIX = doneM ++ ms → doneM.length = doneV.length → out.length = n → isChars (doneV ++ vs) →
+    forEach (idxs doneM.length ms.length) out (deintBody (doneV ++ vs))
+    = ofR id (scatter n ms vs out) := by
+  intro ms
+  induction ms with
+  | nil => intro doneM vs doneV out _ _ _ _; simp [idxs, scatter, ofR]
+  | cons m ms ih =>
+    intro doneM vs doneV out hM hL hn hc
+    rw [List.length_cons, idxs_succ, forEach_cons]
+    cases vs with
+    | nil =>
+      have : deintBody (doneV ++ []) (doneM.length : Int) out = .error .index := by
+        unfold deintBody
+        rw [hL, List.append_nil, getI_ofNat]
+        simp
+      rw [this]; rfl
+    | cons v vs =>
+      have hv : (-128 : Int) ≤ v ∧ v ≤ 127 := hc v (by simp)
+      have hb : deintBody (doneV ++ v :: vs) (doneM.length : Int) out
+          = if m < n then .ok (out.set m v) else .error .index := by
+        unfold deintBody
+        rw [getI_mid' doneV vs v _ hL]
+        simp only [ok_bind]
+        rw [hM, getB_mid]
+        simp only [ok_bind, PyArr.setArr, normIndex_ofNat, hn]
+        by_cases hm : m < n <;> simp [hm, hv]
+      rw [hb]
+      unfold scatter
+      by_cases hm : m < n
+      · simp only [hm, if_true, ok_bind]
+        have := ih (doneM ++ [m]) vs (doneV ++ [v]) (out.set m v) (by rw [hM]; simp) (by simp [hL]) (by simp [hn])
+          (by simpa using hc)
+        simp only [List.length_append, List.length_cons, List.length_nil, List.append_assoc, List.cons_append,
+          List.nil_append] at this
+        exact this
+      · simp only [hm, if_false]; rfl
+
+/-- `deinterleave`, every array of dibit-range items: the model's `deinterleave` (`IndexError`s included) -/
+theorem deinterleave_eq (d : List Int) (hd : isChars d) :
+    Transl.Trellis.deinterleave d = ofR id (Dmr.Trellis.deinterleave d) := by
+  have h : Transl.Trellis.deinterleave d
+      = forEach (range2 0 (len TRELLIS34_INTERLEAVE_MATRIX)) (PyArr.zeros (len d)) (deintBody d) := by
+    unfold Transl.Trellis.deinterleave deintBody; rfl
+  rw [h]
+  have hl : len TRELLIS34_INTERLEAVE_MATRIX = ((98 : Nat) : Int) := by rw [matrix_table, len_eq, matrix_length]
+  rw [hl, range2_idxs]
+  have := deint_loop d.length TRELLIS34_INTERLEAVE_MATRIX [] d [] (PyArr.zeros (len d)) rfl rfl
+    (by simp [PyArr.zeros]) (by simpa using hd)
+  simp only [List.nil_append, List.length_nil] at this
+  rw [matrix_table, matrix_length] at this
+  rw [this]
+  unfold Dmr.Trellis.deinterleave
+  simp [PyArr.zeros]
+
+
+
+/-! ### `dibits_to_bits` -/
+
+theorem drev_table : TRELLIS34_DIBITS_REVERSE = dibitsReverse.map (fun e => (e.1, (ofBool e.2.1, ofBool e.2.2))) := by
+  decide +kernel
+
+theorem lookup_mapval {κ ν μ : Type} [BEq κ] (f : ν → μ) (tbl : List (κ × ν)) (k : κ) :
+    (tbl.map (fun e => (e.1, f e.2))).lookup k = (tbl.lookup k).map f := by
+  induction tbl with
+  | nil => rfl
+  | cons e t ih =>
+    obtain ⟨a, w⟩ := e
+    simp only [List.map_cons, List.lookup_cons, ih]
+    cases (k == a) <;> rfl
+
+theorem bitOfInt_ofBool (b : Bool) : PyBits.bitOfInt (ofBool b) = .ok b := by cases b <;> rfl
+
+def d2bBody (dibit : Int) (out : List Bool) : PyM (List Bool) := do
+  let out ← Py.forEach ((fun p => [p.1, p.2]) (← PyArr.dictGet TRELLIS34_DIBITS_REVERSE dibit)) out
+    fun bit out => do pure (out ++ [(← PyBits.bitOfInt bit)])
+  pure out
+
+theorem d2bBody_eq (d : Int) (acc : List Bool) : d2bBody d acc =
+    match dibitsReverse.lookup d with
+    | some v => .ok (acc ++ [v.1, v.2])
+    | none => .error (.other "KeyError") := by
+  unfold d2bBody PyArr.dictGet
+  rw [drev_table, lookup_mapval (fun v : Bool × Bool => (ofBool v.1, ofBool v.2))]
+  cases dibitsReverse.lookup d with
+  | none => rfl
+  | some v => simp [bitOfInt_ofBool]
+
+theorem d2b_loop (ds : List Int) : ∀ acc : List Bool,
+    Py.forEach ds acc d2bBody = match dibitsToBits ds with
+      | .ok r => .ok (acc ++ r)
+      | .error e => .error (errOf e) := by
+  induction ds with
+  | nil => intro acc; simp [dibitsToBits]
+  | cons d ds ih =>
+    intro acc
+    rw [forEach_cons, d2bBody_eq]
+    unfold dibitsToBits lookupR
+    cases dibitsReverse.lookup d with
+    | none => rfl
+    | some v =>
+      obtain ⟨a, b⟩ := v
+      simp only [ok_bind]
+      rw [ih]
+      cases dibitsToBits ds with
+      | error e => rfl
+      | ok r => simp
+
+/-- `dibits_to_bits`, every array: the model's `dibitsToBits`, `KeyError` included -/
+theorem dibits_to_bits_eq (ds : List Int) : dibits_to_bits ds = ofR id (dibitsToBits ds) := by
+  have : dibits_to_bits ds = Py.forEach ds [] d2bBody := by
+    unfold dibits_to_bits d2bBody; rfl
+  rw [this, d2b_loop]
+  cases dibitsToBits ds with
+  | error e => rfl
+  | ok r => simp [ofR]
+
+
+
+/-! ### `encode` -/
+
+theorem pointsToDibits_chars : ∀ (ps : List Nat) (ds : List Int), pointsToDibits ps = .ok ds → isChars ds := by
+  intro ps
+  induction ps with
+  | nil => intro ds h; simp [pointsToDibits] at h; subst h; intro x hx; simp at hx
+  | cons p ps ih =>
+    intro ds h
+    unfold pointsToDibits lookupR at h
+    cases hl : constellationReverse.lookup p with
+    | none => simp [hl] at h
+    | some v =>
+      obtain ⟨a, b⟩ := v
+      simp only [hl] at h
+      cases hr : pointsToDibits ps with
+      | error e => simp [hr] at h
+      | ok r =>
+        simp only [hr, Except.ok.injEq] at h
+        subst h
+        have hab := rev_range _ (lookup_mem _ _ _ hl)
+        intro x hx
+        simp only [List.mem_cons] at hx
+        rcases hx with rfl | rfl | hx
+        · exact ⟨hab.1, hab.2.1⟩
+        · exact ⟨hab.2.2.1, hab.2.2.2⟩
+        · exact ih r hr x hx
+
+/-- `encode(bitarray)`, every bit string: the model's `encode` -/
+theorem encode_eq (b : Bits) : Transl.Trellis.encode b = ofR id (Dmr.Trellis.encode b) := by
+  unfold Transl.Trellis.encode Dmr.Trellis.encode encodeEndian
+  rw [assert_bind]
+  by_cases hl : b.length < 144
+  · have hc : ¬ (decide (len b ≥ 144) = true) := by rw [decide_eq_true_eq, len_eq]; omega
+    rw [if_neg hc, if_pos hl]; rfl
+  · have hc : decide (len b ≥ 144) = true := by rw [decide_eq_true_eq, len_eq]; omega
+    rw [if_pos hc, if_neg hl]
+    simp only [slice_none_lit, bits_to_tribits_eq, ok_bind, tribits_to_points_eq]
+    cases hp : tribitsToPoints (bitsToTribits false (List.take 144 b)) with
+    | error e => rfl
+    | ok ps =>
+      simp only [ofR, ok_bind, points_to_dibits_eq]
+      cases hd : pointsToDibits ps with
+      | error e => rfl
+      | ok ds =>
+        simp only [ofR, id, ok_bind, interleave_eq ds (pointsToDibits_chars ps ds hd)]
+        cases hi : Dmr.Trellis.interleave ds with
+        | error e => rfl
+        | ok ids =>
+          simp only [ofR, id, ok_bind, dibits_to_bits_eq, pure_eq_ok]
+
+/-- `encode(bytes)`: the model's `encodeBytes` -/
+theorem encode_bytes_eq (d : Bytes) : Transl.Trellis.encode_bytes d = ofR id (Dmr.Trellis.encodeBytes d) := by
+  have : Transl.Trellis.encode_bytes d = Transl.Trellis.encode (bytesToBits d) := by
+    unfold Transl.Trellis.encode_bytes Transl.Trellis.encode PyBits.frombytes
+    simp only [List.nil_append]
+  rw [this, encode_eq]; rfl
+
+
+
+/-! ### `bits_to_dibits`, `dibits_to_points`: loops over pairs -/
+
+theorem pairs_induct {α : Type} {P : List α → Prop} (h0 : P []) (h1 : ∀ x, P [x])
+    (h2 : ∀ a b r, P r → P (a :: b :: r)) : ∀ l, P l := by
+  intro l
+  have : P l ∧ ∀ x, P (x :: l) := by
+    induction l with
+    | nil => exact ⟨h0, h1⟩
+    | cons y t ih => exact ⟨ih.2 y, fun x => h2 x y t ih.1⟩
+  exact this.1
+
+/-- the index list `2k, 2k+2, …` (`m` items) of a `range(0, n, 2)` loop from pass `k` on -/
+def idxs2 (k m : Nat) : List Int := (List.range m).map (fun j => ((2 * (k + j) : Nat) : Int))
+
+theorem idxs2_succ (k m : Nat) : idxs2 k (m + 1) = ((2 * k : Nat) : Int) :: idxs2 (k + 1) m := by
+  unfold idxs2
+  rw [List.range_succ_eq_map, List.map_cons, List.map_map]
+  simp only [Nat.add_zero, List.cons.injEq, true_and]
+  apply List.map_congr_left
+  intro j _
+  simp only [Function.comp]; congr 2; omega
+
+theorem range3p_idxs2 (n : Nat) : range3p 0 (n : Int) 2 = idxs2 0 ((n + 1) / 2) := by
+  unfold range3p idxs2
+  have : (((n : Int) - 0 + ((2 : Nat) : Int) - 1) / ((2 : Nat) : Int)).toNat = (n + 1) / 2 := by omega
+  rw [this]
+  apply List.map_congr_left
+  intro j _
+  simp only [Int.ofNat_eq_natCast]; push_cast; omega
+
+theorem truncDiv2 (k : Nat) (h : 2 * k < 2 ^ 53) : PyArr.truncDiv ((2 * k : Nat) : Int) 2 = .ok (k : Int) := by
+  unfold PyArr.truncDiv
+  have : (0 : Int) ≤ ((2 * k : Nat) : Int) ∧ ((2 * k : Nat) : Int) < 2 ^ 53 := ⟨by omega, by exact_mod_cast h⟩
+  rw [if_pos this]
+  congr 1
+  omega
+
+theorem truncDiv_len2 (n : Nat) (h : n < 2 ^ 53) : PyArr.truncDiv (n : Int) 2 = .ok ((n / 2 : Nat) : Int) := by
+  unfold PyArr.truncDiv
+  have : (0 : Int) ≤ (n : Int) ∧ (n : Int) < 2 ^ 53 := ⟨by omega, by exact_mod_cast h⟩
+  rw [if_pos this]
+  congr 1
+
+theorem getBit_mid (A B : List Bool) (x : Bool) (k : Nat) (h : k = A.length) :
+    PyBits.getBit (A ++ x :: B) (k : Int) = .ok (ofBool x) := by
+  subst h
+  unfold PyBits.getBit
+  rw [getItem_ofNat]; simp
+
+theorem getBit_end (A : List Bool) (k : Nat) (h : A.length ≤ k) : PyBits.getBit A (k : Int) = .error .index := by
+  unfold PyBits.getBit
+  rw [getItem_ofNat, List.getElem?_eq_none h]; rfl
+
+theorem dibits_lookup : ∀ a b : Bool, TRELLIS34_DIBITS.lookup (ofBool a, ofBool b) = dibits.lookup (a, b) := by decide
+theorem dibits_range : ∀ a b : Bool, ∀ v, dibits.lookup (a, b) = some v → (-128 : Int) ≤ v ∧ v ≤ 127 := by decide
+
+def b2dBody (stream : List Bool) (i : Int) (out : List Int) : PyM (List Int) := do
+  let o ← PyArr.truncDiv i 2
+  PyArr.setArr (-128) 127 out (← PyArr.dictGet TRELLIS34_DIBITS ((← PyBits.getBit stream i), (← PyBits.getBit stream (i + 1)))) o
+
+theorem b2d_loop : ∀ (rest done : Bits) (A B : List Int) (k : Nat),
+    done.length = 2 * k → A.length = k → B.length = rest.length / 2 → (done ++ rest).length < 2 ^ 53 →
+    forEach (idxs2 k ((rest.length + 1) / 2)) (A ++ B) (b2dBody (done ++ rest))
+    = match bitsToDibits rest with
+      | .ok ds => .ok (A ++ ds)
+      | .error e => .error (errOf e) := by
+  intro rest
+  induction rest using pairs_induct with
+  | h0 =>
+    intro done A B k _ _ hB _
+    have : B = [] := List.eq_nil_of_length_eq_zero (by simpa using hB)
+    subst this
+    simp [idxs2, bitsToDibits]
+  | h1 x =>
+    intro done A B k hd hA hB hn
+    have hB' : B = [] := List.eq_nil_of_length_eq_zero (by simpa using hB)
+    subst hB'
+    have : (([x] : Bits).length + 1) / 2 = 0 + 1 := by simp
+    rw [this, idxs2_succ, forEach_cons]
+    have hb : b2dBody (done ++ [x]) ((2 * k : Nat) : Int) (A ++ []) = .error .index := by
+      unfold b2dBody
+      rw [truncDiv2 k (by simp at hn; omega)]
+      simp only [ok_bind]
+      rw [getBit_mid done [] x (2 * k) hd.symm]
+      simp only [ok_bind]
+      have e : ((2 * k : Nat) : Int) + 1 = ((2 * k + 1 : Nat) : Int) := by push_cast; rfl
+      rw [e, getBit_end _ _ (by simp; omega)]
+      rfl
+    rw [hb]; rfl
+  | h2 a b r ih =>
+    intro done A B k hd hA hB hn
+    obtain ⟨b0, B', rfl⟩ : ∃ b0 B', B = b0 :: B' := by
+      cases B with
+      | nil => simp at hB; omega
+      | cons b0 B' => exact ⟨b0, B', rfl⟩
+    have hc : ((a :: b :: r).length + 1) / 2 = (r.length + 1) / 2 + 1 := by simp only [List.length_cons]; omega
+    rw [hc, idxs2_succ, forEach_cons]
+    have hb : b2dBody (done ++ a :: b :: r) ((2 * k : Nat) : Int) (A ++ b0 :: B')
+        = match dibits.lookup (a, b) with
+          | some v => .ok (A ++ v :: B')
+          | none => .error (.other "KeyError") := by
+      unfold b2dBody
+      rw [truncDiv2 k (by simp at hn; omega)]
+      simp only [ok_bind]
+      rw [getBit_mid done (b :: r) a (2 * k) hd.symm]
+      simp only [ok_bind]
+      have e : ((2 * k : Nat) : Int) + 1 = ((2 * k + 1 : Nat) : Int) := by push_cast; rfl
+      have e2 : done ++ a :: b :: r = (done ++ [a]) ++ b :: r := by simp
+      rw [e, e2, getBit_mid (done ++ [a]) r b (2 * k + 1) (by simp; omega)]
+      simp only [ok_bind, PyArr.dictGet, dibits_lookup]
+      cases hl : dibits.lookup (a, b) with
+      | none => rfl
+      | some v =>
+        simp only [ok_bind, pure_eq_ok]
+        rw [← hA, setArr_mid (-128) 127 A B' b0 v (dibits_range a b v hl)]
+    rw [hb]
+    unfold bitsToDibits lookupR
+    cases hl : dibits.lookup (a, b) with
+    | none => rfl
+    | some v =>
+      simp only [ok_bind]
+      have := ih (done ++ [a, b]) (A ++ [v]) B' (k + 1) (by simp [hd]; omega) (by simp [hA])
+        (by simp only [List.length_cons] at hB; omega) (by simpa using hn)
+      simp only [List.append_assoc, List.cons_append, List.nil_append] at this
+      rw [this]
+      cases bitsToDibits r with
+      | error e => rfl
+      | ok ds => simp
+
+/-- `bits_to_dibits`, every bit string (shorter than 2^53 bits: `int(len / 2)` goes through a float): the model's
+`bitsToDibits` (`IndexError` for an odd length included) -/
+theorem bits_to_dibits_eq (s : Bits) (hs : s.length < 2 ^ 53) : bits_to_dibits s = ofR id (bitsToDibits s) := by
+  have h : bits_to_dibits s = (PyArr.truncDiv (len s) 2 >>= fun n =>
+      forEach (range3p 0 (len s) 2) (PyArr.zeros n) (b2dBody s)) := by
+    unfold bits_to_dibits b2dBody; rfl
+  rw [h, len_eq, truncDiv_len2 _ hs, ok_bind, range3p_idxs2]
+  have := b2d_loop s [] [] (PyArr.zeros ((s.length / 2 : Nat) : Int)) 0 rfl rfl (by simp [PyArr.zeros]; omega) (by simpa using hs)
+  simp only [List.nil_append] at this
+  rw [this]
+  cases bitsToDibits s with
+  | error e => rfl
+  | ok ds => simp [ofR]
+
+
+/-! `dibits_to_points` -/
+
+theorem const_table : TRELLIS34_CONSTELLATION_POINTS = constellation.map (fun e => (e.1, (e.2 : Int))) := by decide +kernel
+theorem const_range : ∀ e ∈ constellation, e.2 < 256 := by decide
+
+theorem lookup_mem' {κ ν : Type} [BEq κ] [LawfulBEq κ] (tbl : List (κ × ν)) (k : κ) (v : ν)
+    (h : tbl.lookup k = some v) : (k, v) ∈ tbl := by
+  induction tbl with
+  | nil => simp at h
+  | cons e t ih =>
+    obtain ⟨a, w⟩ := e
+    simp only [List.lookup_cons] at h
+    by_cases hp : (k == a) = true
+    · rw [hp] at h
+      have := eq_of_beq hp
+      subst this; cases h; simp
+    · have : (k == a) = false := by simpa using hp
+      rw [this] at h
+      exact List.mem_cons_of_mem _ (ih h)
+
+def d2pBody (d : List Int) (i : Int) (out : List Int) : PyM (List Int) := do
+  let o ← PyArr.truncDiv i 2
+  PyArr.setArr 0 255 out (← PyArr.dictGet TRELLIS34_CONSTELLATION_POINTS ((← getI d i), (← getI d (i + 1)))) o
+
+theorem getI_end (A : List Int) (k : Nat) (h : A.length ≤ k) : getI A (k : Int) = .error .index := by
+  rw [getI_ofNat, List.getElem?_eq_none h]
+
+theorem d2p_loop : ∀ (rest done : List Int) (A B : List Int) (k : Nat),
+    done.length = 2 * k → A.length = k → B.length = rest.length / 2 → (done ++ rest).length < 2 ^ 53 →
+    forEach (idxs2 k ((rest.length + 1) / 2)) (A ++ B) (d2pBody (done ++ rest))
+    = match dibitsToPoints rest with
+      | .ok ps => .ok (A ++ ps.map (fun x : Nat => (x : Int)))
+      | .error e => .error (errOf e) := by
+  intro rest
+  induction rest using pairs_induct with
+  | h0 =>
+    intro done A B k _ _ hB _
+    have : B = [] := List.eq_nil_of_length_eq_zero (by simpa using hB)
+    subst this
+    simp [idxs2, dibitsToPoints]
+  | h1 x =>
+    intro done A B k hd hA hB hn
+    have hB' : B = [] := List.eq_nil_of_length_eq_zero (by simpa using hB)
+    subst hB'
+    have : (([x] : List Int).length + 1) / 2 = 0 + 1 := by simp
+    rw [this, idxs2_succ, forEach_cons]
+    have hb : d2pBody (done ++ [x]) ((2 * k : Nat) : Int) (A ++ []) = .error .index := by
+      unfold d2pBody
+      rw [truncDiv2 k (by simp at hn; omega)]
+      simp only [ok_bind]
+      rw [getI_mid' done [] x (2 * k) hd.symm]
+      simp only [ok_bind]
+      have e : ((2 * k : Nat) : Int) + 1 = ((2 * k + 1 : Nat) : Int) := by push_cast; rfl
+      rw [e, getI_end _ _ (by simp; omega)]
+      rfl
+    rw [hb]; rfl
+  | h2 a b r ih =>
+    intro done A B k hd hA hB hn
+    obtain ⟨b0, B', rfl⟩ : ∃ b0 B', B = b0 :: B' := by
+      cases B with
+      | nil => simp at hB; omega
+      | cons b0 B' => exact ⟨b0, B', rfl⟩
+    have hc : ((a :: b :: r).length + 1) / 2 = (r.length + 1) / 2 + 1 := by simp only [List.length_cons]; omega
+    rw [hc, idxs2_succ, forEach_cons]
+    have hb : d2pBody (done ++ a :: b :: r) ((2 * k : Nat) : Int) (A ++ b0 :: B')
+        = match constellation.lookup (a, b) with
+          | some v => .ok (A ++ (v : Int) :: B')
+          | none => .error (.other "KeyError") := by
+      unfold d2pBody
+      rw [truncDiv2 k (by simp at hn; omega)]
+      simp only [ok_bind]
+      rw [getI_mid' done (b :: r) a (2 * k) hd.symm]
+      simp only [ok_bind]
+      have e : ((2 * k : Nat) : Int) + 1 = ((2 * k + 1 : Nat) : Int) := by push_cast; rfl
+      have e2 : done ++ a :: b :: r = (done ++ [a]) ++ b :: r := by simp
+      rw [e, e2, getI_mid' (done ++ [a]) r b (2 * k + 1) (by simp; omega)]
+      simp only [ok_bind, PyArr.dictGet, const_table, lookup_mapval (fun v : Nat => (v : Int))]
+      cases hl : constellation.lookup (a, b) with
+      | none => rfl
+      | some v =>
+        have hv : v < 256 := const_range _ (lookup_mem' _ _ _ hl)
+        simp only [Option.map_some, ok_bind, pure_eq_ok]
+        rw [← hA, setArr_mid 0 255 A B' b0 (v : Int) (by omega)]
+    rw [hb]
+    unfold dibitsToPoints lookupR
+    cases hl : constellation.lookup (a, b) with
+    | none => rfl
+    | some v =>
+      simp only [ok_bind]
+      have := ih (done ++ [a, b]) (A ++ [(v : Int)]) B' (k + 1) (by simp [hd]; omega) (by simp [hA])
+        (by simp only [List.length_cons] at hB; omega) (by simpa using hn)
+      simp only [List.append_assoc, List.cons_append, List.nil_append] at this
+      rw [this]
+      cases dibitsToPoints r with
+      | error e => rfl
+      | ok ps => simp
+
+/-- `dibits_to_points`, every array (shorter than 2^53 items): the model's `dibitsToPoints` (`KeyError` for a pair that is not
+a constellation point, `IndexError` for an odd length) -/
+theorem dibits_to_points_eq (d : List Int) (hd : d.length < 2 ^ 53) :
+    dibits_to_points d = ofR (List.map (fun x : Nat => (x : Int))) (dibitsToPoints d) := by
+  have h : dibits_to_points d = (PyArr.truncDiv (len d) 2 >>= fun n =>
+      forEach (range3p 0 (len d) 2) (PyArr.zeros n) (d2pBody d)) := by
+    unfold dibits_to_points d2pBody; rfl
+  rw [h, len_eq, truncDiv_len2 _ hd, ok_bind, range3p_idxs2]
+  have := d2p_loop d [] [] (PyArr.zeros ((d.length / 2 : Nat) : Int)) 0 rfl rfl (by simp [PyArr.zeros]; omega) (by simpa using hd)
+  simp only [List.nil_append] at this
+  rw [this]
+  cases dibitsToPoints d with
+  | error e => rfl
+  | ok ps => simp [ofR]
+
+
+
+/-! ### `tribits_to_bits` -/
+
+theorem bitK (k b : Nat) : (b &&& 2 ^ k = 0) ↔ b / 2 ^ k % 2 = 0 := by
+  have hT : b.testBit k = decide (b / 2 ^ k % 2 = 1) := Nat.testBit_eq_decide_div_mod_eq
+  constructor
+  · intro h
+    have : (b &&& 2 ^ k).testBit k = false := by rw [h]; simp
+    rw [Nat.testBit_and, Nat.testBit_two_pow_self, Bool.and_true, hT] at this
+    simp at this; omega
+  · intro h
+    apply Nat.eq_of_testBit_eq
+    intro i
+    rw [Nat.testBit_and, Nat.testBit_two_pow, Nat.zero_testBit]
+    by_cases hi : k = i
+    · subst hi; rw [hT]; simp; omega
+    · simp [hi]
+
+theorem bandpos (t k : Nat) : decide (band (t : Int) ((2 ^ k : Nat) : Int) > 0) = (t / 2 ^ k % 2 == 1) := by
+  rw [band_ofNat]
+  by_cases h : t / 2 ^ k % 2 = 0
+  · have := (bitK k t).mpr h
+    rw [this]; simp [h]
+  · have hne : t &&& 2 ^ k ≠ 0 := fun c => h ((bitK k t).mp c)
+    have h1 : t / 2 ^ k % 2 = 1 := by omega
+    have : ((t &&& 2 ^ k : Nat) : Int) > 0 := by omega
+    have hp : 0 < t &&& 2 ^ k := Nat.pos_of_ne_zero hne
+    simp [hp, h1]
+
+def idxs3 (k m : Nat) : List Int := (List.range m).map (fun j => ((3 * (k + j) : Nat) : Int))
+
+theorem idxs3_succ (k m : Nat) : idxs3 k (m + 1) = ((3 * k : Nat) : Int) :: idxs3 (k + 1) m := by
+  unfold idxs3
+  rw [List.range_succ_eq_map, List.map_cons, List.map_map]
+  simp only [Nat.add_zero, List.cons.injEq, true_and]
+  apply List.map_congr_left
+  intro j _
+  simp only [Function.comp]; congr 2; omega
+
+theorem baSet_mid (A B : List Bool) (x v : Bool) (k : Nat) (h : k = A.length) :
+    PyArr.baSet (A ++ x :: B) v (k : Int) = .ok (A ++ v :: B) := by
+  subst h
+  unfold PyArr.baSet
+  rw [normIndex_ofNat]
+  simp
+
+theorem truncDiv3 (k : Nat) (h : 3 * k < 2 ^ 53) : PyArr.truncDiv ((3 * k : Nat) : Int) 3 = .ok (k : Int) := by
+  unfold PyArr.truncDiv
+  have : (0 : Int) ≤ ((3 * k : Nat) : Int) ∧ ((3 * k : Nat) : Int) < 2 ^ 53 := ⟨by omega, by exact_mod_cast h⟩
+  rw [if_pos this]
+  congr 1
+  omega
+
+def t2bBody (tribits : List Int) (i : Int) (out : List Bool) : PyM (List Bool) := do
+  let o ← PyArr.truncDiv i 3
+  let out ← PyArr.baSet out (decide (band (← getI tribits o) 4 > 0)) i
+  let out ← PyArr.baSet out (decide (band (← getI tribits o) 2 > 0)) (i + 1)
+  PyArr.baSet out (decide (band (← getI tribits o) 1 > 0)) (i + 2)
+
+theorem t2b_loop (tail : List Nat) : ∀ (rest done : List Nat) (A B : List Bool),
+    A.length = 3 * done.length → B.length = 3 * rest.length → done.length + rest.length ≤ 1000 →
+    forEach (idxs3 done.length rest.length) (A ++ B) (t2bBody ((done ++ rest ++ tail).map (fun x : Nat => (x : Int))))
+    = .ok (A ++ rest.flatMap tribitBits) := by
+  intro rest
+  induction rest with
+  | nil =>
+    intro done A B _ hB _
+    have : B = [] := List.eq_nil_of_length_eq_zero (by simpa using hB)
+    subst this
+    simp [idxs3]
+  | cons t ts ih =>
+    intro done A B hA hB hn
+    obtain ⟨x1, x2, x3, B', rfl⟩ : ∃ x1 x2 x3 B', B = x1 :: x2 :: x3 :: B' := by
+      match B, hB with
+      | x1 :: x2 :: x3 :: B', _ => exact ⟨x1, x2, x3, B', rfl⟩
+      | [], h => simp at h
+      | [_], h => simp at h; omega
+      | [_, _], h => simp at h; omega
+    rw [List.length_cons, idxs3_succ, forEach_cons]
+    have hg : getI ((done ++ t :: ts ++ tail).map (fun x : Nat => (x : Int))) (done.length : Int) = .ok (t : Int) := by
+      rw [List.append_assoc, List.cons_append]
+      exact getI_cast_mid done (ts ++ tail) t
+    have e1 : ((3 * done.length : Nat) : Int) + 1 = ((3 * done.length + 1 : Nat) : Int) := by push_cast; rfl
+    have e2 : ((3 * done.length : Nat) : Int) + 2 = ((3 * done.length + 2 : Nat) : Int) := by push_cast; rfl
+    have hb : t2bBody ((done ++ t :: ts ++ tail).map (fun x : Nat => (x : Int))) ((3 * done.length : Nat) : Int)
+        (A ++ x1 :: x2 :: x3 :: B') = .ok (A ++ tribitBits t ++ B') := by
+      unfold t2bBody
+      rw [truncDiv3 _ (by omega)]
+      simp only [ok_bind, hg, e1, e2]
+      rw [baSet_mid A _ x1 _ _ hA.symm]
+      simp only [ok_bind]
+      rw [show A ++ decide (band (t : Int) 4 > 0) :: x2 :: x3 :: B' = (A ++ [decide (band (t : Int) 4 > 0)]) ++ x2 :: x3 :: B' by simp,
+        baSet_mid _ _ x2 _ _ (by simp; omega)]
+      simp only [ok_bind]
+      rw [show (A ++ [decide (band (t : Int) 4 > 0)]) ++ decide (band (t : Int) 2 > 0) :: x3 :: B'
+          = (A ++ [decide (band (t : Int) 4 > 0), decide (band (t : Int) 2 > 0)]) ++ x3 :: B' by simp,
+        baSet_mid _ _ x3 _ _ (by simp; omega)]
+      have b4 := bandpos t 2
+      have b2 := bandpos t 1
+      have b1 := bandpos t 0
+      simp only [Nat.pow_zero, Nat.div_one] at b1
+      rw [show ((2 ^ 2 : Nat) : Int) = 4 from rfl] at b4
+      rw [show ((2 ^ 1 : Nat) : Int) = 2 from rfl] at b2
+      rw [show ((1 : Nat) : Int) = 1 from rfl] at b1
+      rw [b4, b2, b1]
+      simp [tribitBits]
+    rw [hb, ok_bind]
+    have := ih (done ++ [t]) (A ++ tribitBits t) B' (by simp [hA, tribitBits]; omega) (by simp at hB; omega)
+      (by simp at hn ⊢; omega)
+    simp only [List.length_append, List.length_cons, List.length_nil, List.append_assoc, List.cons_append,
+      List.nil_append] at this
+    simp only [List.flatMap_cons, List.append_assoc, List.cons_append, Nat.zero_add] at this ⊢
+    exact this
+
+/-- `tribits_to_bits`, every array of naturals: the model's `tribitsToBits` (`AssertionError` unless 49 tribits; the 49th is
+dropped) -/
+theorem tribits_to_bits_eq (ts : List Nat) :
+    tribits_to_bits (ts.map (fun x : Nat => (x : Int))) = ofR id (tribitsToBits ts) := by
+  have h : tribits_to_bits (ts.map (fun x : Nat => (x : Int)))
+      = (assert (len (ts.map (fun x : Nat => (x : Int))) == 49) >>= fun _ =>
+          forEach (range3p 0 144 3) (PyArr.baZeros 144) (t2bBody (ts.map (fun x : Nat => (x : Int))))) := by
+    unfold tribits_to_bits t2bBody; rfl
+  rw [h, assert_bind]
+  unfold tribitsToBits
+  by_cases hl : ts.length = 49
+  · have hc : (len (ts.map (fun x : Nat => (x : Int))) == 49) = true := by simp [hl]
+    rw [if_pos hc, if_pos hl]
+    have hr : range3p 0 144 3 = idxs3 0 48 := by decide
+    rw [hr]
+    have hsplit : ts = [] ++ ts.take 48 ++ ts.drop 48 := by simp
+    have := t2b_loop (ts.drop 48) (ts.take 48) [] [] (PyArr.baZeros 144) rfl (by simp [PyArr.baZeros]; omega) (by simp; omega)
+    simp only [List.nil_append, List.length_nil, List.take_append_drop, List.length_take, hl] at this
+    exact this
+  · have hc : ¬ ((len (ts.map (fun x : Nat => (x : Int))) == 49) = true) := by
+      simp only [len_eq, List.length_map, beq_iff_eq]; omega
+    rw [if_neg hc, if_neg hl]; rfl
+
+
+
+/-! ### `points_to_tribits`: the nested loop against `walk` / `rowOf` / `lastHit` -/
+
+def p2tInner (cp : List Int) (i start : Int) (j : Int) (x : List Int × Int × Bool) : PyM (List Int × Int × Bool) :=
+  match x with
+  | (out, last, m) => do
+    if (← getI cp i) == (← getB TRELLIS34_ENCODER_STATE_TRANSITION j) then
+      let last := Py.abs (modL (j - start) 255)
+      let out ← PyArr.setArr 0 255 out last i
+      pure (out, last, true)
+    else pure (out, last, m)
+
+def p2tOuter (cp : List Int) (i : Int) (x : List Int × Int) : PyM (List Int × Int) :=
+  match x with
+  | (out, last) => do
+    let r ← forEach (range2 (last * 8) (last * 8 + 8)) (out, last, false) (p2tInner cp i (last * 8))
+    if !r.2.2 then
+      let _ ← getI cp i
+      throw .assertion
+    pure (r.1, r.2.1)
+
+theorem p2t_shape (cp : List Int) : points_to_tribits cp
+    = (forEach (range2 0 49) (PyArr.zeros 49, (0 : Int)) (p2tOuter cp) >>= fun x => pure x.1) := by
+  unfold points_to_tribits p2tOuter p2tInner
+  rfl
+
+
+/-- the effect of the inner loop on `(out, last, matches)`: the last hit, if any, is written -/
+def applyHit (ii : Nat) (acc : Option Nat) (s0 : List Int × Int × Bool) : List Int × Int × Bool :=
+  match acc with
+  | none => s0
+  | some t => (s0.1.set ii (t : Int), (t : Int), true)
+
+theorem applyHit_len (ii : Nat) (acc : Option Nat) (s0 : List Int × Int × Bool) :
+    (applyHit ii acc s0).1.length = s0.1.length := by
+  cases acc <;> simp [applyHit]
+
+theorem range2_idxs' (a m : Nat) : range2 (a : Int) ((a : Int) + (m : Int)) = idxs a m := by
+  unfold range2 idxs
+  have : ((a : Int) + (m : Int) - (a : Int)).toNat = m := by omega
+  rw [this]
+  apply List.map_congr_left
+  intro j _
+  simp
+
+theorem inner_loop (cp : List Int) (ii p st : Nat) (hcp : getI cp (ii : Int) = .ok (p : Int))
+    (s0 : List Int × Int × Bool) (hii : ii < s0.1.length) :
+    ∀ (c off : Nat) (acc : Option Nat), off + c ≤ 8 →
+      forEach (idxs (st * 8 + off) c) (applyHit ii acc s0) (p2tInner cp (ii : Int) ((st * 8 : Nat) : Int))
+      = match rowFrom (st * 8 + off) c with
+        | .error _ => .error .index
+        | .ok row => .ok (applyHit ii (lastHitFrom p row off acc) s0) := by
+  intro c
+  induction c with
+  | zero => intro off acc _; simp [idxs, rowFrom, lastHitFrom]
+  | succ c ih =>
+    intro off acc hoc
+    rw [idxs_succ, forEach_cons]
+    unfold rowFrom indexR
+    have hb : p2tInner cp (ii : Int) ((st * 8 : Nat) : Int) ((st * 8 + off : Nat) : Int) (applyHit ii acc s0)
+        = match transition[st * 8 + off]? with
+          | none => .error .index
+          | some x => .ok (applyHit ii (if p == x then some off else acc) s0) := by
+      rcases hs : applyHit ii acc s0 with ⟨o1, l1, m1⟩
+      have hlen : o1.length = s0.1.length := by have := applyHit_len ii acc s0; rw [hs] at this; exact this
+      unfold p2tInner
+      simp only [hcp, ok_bind, getB_ofNat, trans_table]
+      cases hx : transition[st * 8 + off]? with
+      | none => rfl
+      | some x =>
+        simp only [ok_bind]
+        by_cases hpx : p = x
+        · subst hpx
+          have e : ((st * 8 + off : Nat) : Int) - ((st * 8 : Nat) : Int) = (off : Int) := by omega
+          have hm : Py.abs (modL (off : Int) 255) = (off : Int) := by
+            rw [modL_ofNat]; unfold Py.abs
+            rw [Nat.mod_eq_of_lt (show off < 255 by omega)]; simp
+          simp only [beq_self_eq_true, if_true, e, hm]
+          unfold PyArr.setArr
+          rw [normIndex_ofNat]
+          have h1 : ii < o1.length := by omega
+          have h2 : (0 : Int) ≤ (off : Int) ∧ (off : Int) ≤ 255 := by omega
+          simp only [h1, if_true, ok_bind, h2, and_self, pure_eq_ok]
+          congr 1
+          cases acc with
+          | none => simp only [applyHit] at hs ⊢; rw [hs]
+          | some t0 =>
+            simp only [applyHit] at hs ⊢
+            have : o1 = s0.1.set ii (t0 : Int) := (congrArg Prod.fst hs).symm
+            rw [this, List.set_set]
+        · have hne : ((p : Int) == (x : Int)) = false := by simp; omega
+          have hne2 : (p == x) = false := by simp [hpx]
+          simp only [hne, hne2, Bool.false_eq_true, if_false, pure_eq_ok]
+          rw [hs]
+    rw [hb]
+    cases hx : transition[st * 8 + off]? with
+    | none => rfl
+    | some x =>
+      simp only [ok_bind]
+      have := ih (off + 1) (if p == x then some off else acc) (by omega)
+      rw [show st * 8 + (off + 1) = st * 8 + off + 1 by omega] at this
+      rw [this]
+      cases rowFrom (st * 8 + off + 1) c with
+      | error e => rfl
+      | ok row => simp [lastHitFrom]
+
+
+theorem set_mid (A B : List Int) (x v : Int) : (A ++ x :: B).set A.length v = A ++ v :: B := by
+  induction A with
+  | nil => rfl
+  | cons a A ih => simp [ih]
+
+theorem rowFrom_err : ∀ (c s : Nat) (e : Dmr.Trellis.Err), rowFrom s c = .error e → e = .index := by
+  intro c
+  induction c with
+  | zero => intro s e h; simp [rowFrom] at h
+  | succ c ih =>
+    intro s e h
+    unfold rowFrom indexR at h
+    cases hx : transition[s]? with
+    | none => simp [hx] at h; exact h.symm
+    | some x =>
+      simp only [hx] at h
+      cases hr : rowFrom (s + 1) c with
+      | error e' => simp [hr] at h; rw [← h]; exact ih _ _ hr
+      | ok xs => simp [hr] at h
+
+theorem outer_loop : ∀ (n : Nat) (rest done : List Nat) (A B : List Int) (st : Nat),
+    A.length = done.length → B.length = n →
+    (forEach (idxs done.length n) (A ++ B, (st : Int)) (p2tOuter ((done ++ rest).map (fun x : Nat => (x : Int))))
+      >>= fun x => pure x.1)
+    = match walk n st rest with
+      | .ok ts => .ok (A ++ ts.map (fun x : Nat => (x : Int)))
+      | .error e => .error (errOf e) := by
+  intro n
+  induction n with
+  | zero =>
+    intro rest done A B st _ hB
+    have : B = [] := List.eq_nil_of_length_eq_zero hB
+    subst this
+    simp [idxs, walk]
+  | succ n ih =>
+    intro rest done A B st hA hB
+    obtain ⟨b0, B', rfl⟩ : ∃ b0 B', B = b0 :: B' := by
+      cases B with
+      | nil => simp at hB
+      | cons b0 B' => exact ⟨b0, B', rfl⟩
+    rw [idxs_succ, forEach_cons, bind_assoc]
+    have hr : range2 ((st : Int) * 8) ((st : Int) * 8 + 8) = idxs (st * 8 + 0) 8 := by
+      have := range2_idxs' (st * 8) 8
+      rw [show ((st * 8 : Nat) : Int) = (st : Int) * 8 by push_cast; rfl, show ((8 : Nat) : Int) = 8 from rfl] at this
+      rw [this]; rfl
+    cases rest with
+    | nil =>
+      have hb : p2tOuter ((done ++ []).map (fun x : Nat => (x : Int))) (done.length : Int) (A ++ b0 :: B', (st : Int))
+          = .error .index := by
+        unfold p2tOuter
+        simp only [hr]
+        rw [idxs_succ, forEach_cons]
+        have : p2tInner ((done ++ []).map (fun x : Nat => (x : Int))) (done.length : Int) ((st : Int) * 8)
+            ((st * 8 + 0 : Nat) : Int) (A ++ b0 :: B', (st : Int), false) = .error .index := by
+          unfold p2tInner
+          rw [List.append_nil, getI_cast_end]; rfl
+        rw [this]; rfl
+      rw [hb]; rfl
+    | cons p ps =>
+      have hcp : getI ((done ++ p :: ps).map (fun x : Nat => (x : Int))) (done.length : Int) = .ok (p : Int) :=
+        getI_cast_mid done ps p
+      have hin := inner_loop ((done ++ p :: ps).map (fun x : Nat => (x : Int))) done.length p st hcp
+        (A ++ b0 :: B', (st : Int), false) (by simp [hA]) 8 0 none (by omega)
+      simp only [applyHit] at hin
+      have hb : p2tOuter ((done ++ p :: ps).map (fun x : Nat => (x : Int))) (done.length : Int) (A ++ b0 :: B', (st : Int))
+          = match rowOf st with
+            | .error _ => .error .index
+            | .ok row => match lastHit row p with
+              | none => .error .assertion
+              | some t => .ok (A ++ (t : Int) :: B', (t : Int)) := by
+        unfold p2tOuter
+        simp only [hr]
+        rw [show ((st : Int) * 8) = ((st * 8 : Nat) : Int) by push_cast; rfl, hin]
+        unfold rowOf lastHit
+        rw [show st * 8 + 0 = st * 8 from rfl]
+        cases rowFrom (st * 8) 8 with
+        | error e => rfl
+        | ok row =>
+          simp only [ok_bind]
+          cases lastHitFrom p row 0 none with
+          | none => simp [applyHit, hcp]; rfl
+          | some t =>
+            simp only [applyHit, Bool.not_true, Bool.false_eq_true, if_false, pure_eq_ok, ok_bind]
+            rw [← hA, set_mid]
+      rw [hb]
+      unfold walk
+      cases hro : rowOf st with
+      | error e =>
+        have := rowFrom_err _ _ _ hro
+        subst this; rfl
+      | ok row =>
+        simp only []
+        cases lastHit row p with
+        | none => rfl
+        | some t =>
+          simp only [ok_bind]
+          have := ih ps (done ++ [p]) (A ++ [(t : Int)]) B' t (by simp [hA]) (by simpa using hB)
+          simp only [List.length_append, List.length_cons, List.length_nil, List.append_assoc, List.cons_append,
+            List.nil_append] at this
+          rw [this]
+          cases walk n t ps with
+          | error e => rfl
+          | ok ts => simp
+
+/-- `points_to_tribits`, every array of naturals: the model's `pointsToTribits` (49 passes from state 0; `AssertionError` for a
+point that is not in the row of the current state, `IndexError` for a short array) -/
+theorem points_to_tribits_eq (ps : List Nat) :
+    points_to_tribits (ps.map (fun x : Nat => (x : Int)))
+      = ofR (List.map (fun x : Nat => (x : Int))) (pointsToTribits ps) := by
+  rw [p2t_shape]
+  have hr : range2 0 49 = idxs 0 49 := range2_idxs 49
+  rw [hr]
+  have := outer_loop 49 ps [] [] (PyArr.zeros 49) 0 rfl (by simp [PyArr.zeros])
+  simp only [List.nil_append, List.length_nil] at this
+  rw [show ((0 : Nat) : Int) = 0 from rfl] at this
+  rw [this]
+  unfold pointsToTribits
+  cases walk 49 0 ps with
+  | error e => rfl
+  | ok ts => rfl
+
+
+
+/-! ### `decode` -/
+
+theorem bitsToDibits_facts : ∀ (s : Bits) (ds : List Int), bitsToDibits s = .ok ds → isChars ds ∧ ds.length ≤ s.length := by
+  intro s
+  induction s using pairs_induct with
+  | h0 => intro ds h; simp [bitsToDibits] at h; subst h; exact ⟨fun x hx => by simp at hx, by simp⟩
+  | h1 x => intro ds h; simp [bitsToDibits] at h
+  | h2 a b r ih =>
+    intro ds h
+    unfold bitsToDibits lookupR at h
+    cases hl : dibits.lookup (a, b) with
+    | none => simp [hl] at h
+    | some v =>
+      simp only [hl] at h
+      cases hr : bitsToDibits r with
+      | error e => simp [hr] at h
+      | ok rs =>
+        simp only [hr, Except.ok.injEq] at h
+        subst h
+        obtain ⟨h1, h2⟩ := ih rs hr
+        refine ⟨?_, by simp; omega⟩
+        intro x hx
+        simp only [List.mem_cons] at hx
+        rcases hx with rfl | hx
+        · exact dibits_range a b _ hl
+        · exact h1 x hx
+
+theorem scatter_length (n : Nat) : ∀ (ms : List Nat) (vs out r : List Int), scatter n ms vs out = .ok r → r.length = out.length := by
+  intro ms
+  induction ms with
+  | nil => intro vs out r h; simp [scatter] at h; subst h; rfl
+  | cons m ms ih =>
+    intro vs out r h
+    cases vs with
+    | nil => simp [scatter] at h
+    | cons v vs =>
+      unfold scatter at h
+      by_cases hm : m < n
+      · simp only [hm, if_true] at h
+        have := ih vs _ r h
+        simpa using this
+      · simp [hm] at h
+
+theorem bindR {α β γ : Type} (m : PyM β) (r : R α) (f : α → β) (k : β → PyM γ) :
+    m = ofR f r → (m >>= k) = match r with
+      | .ok v => k (f v)
+      | .error x => .error (errOf x) := by
+  intro h; subst h; cases r <;> rfl
+
+theorem bindR_id {α γ : Type} (m : PyM α) (r : R α) (k : α → PyM γ) :
+    m = ofR id r → (m >>= k) = match r with
+      | .ok v => k v
+      | .error x => .error (errOf x) := by
+  intro h; subst h; cases r <;> rfl
+
+/-- `decode(encoded)` (`as_bytes=False`), EVERY bit string: the model's `decode` -/
+theorem decode_eq (e : Bits) : Transl.Trellis.decode e = ofR id (Dmr.Trellis.decode e) := by
+  unfold Transl.Trellis.decode Dmr.Trellis.decode streamPoints
+  rw [assert_bind]
+  by_cases hl : e.length = 196
+  · have hc : (len e == 196) = true := by simp [hl]
+    have hne : ¬ (e.length ≠ 196) := by omega
+    have he53 : e.length < 2 ^ 53 := by rw [hl]; decide
+    rw [if_pos hc, if_neg hne, bindR_id _ _ _ (bits_to_dibits_eq e he53)]
+    cases hd : bitsToDibits e with
+    | error x => rfl
+    | ok ds =>
+      obtain ⟨hch, hlen⟩ := bitsToDibits_facts e ds hd
+      dsimp only
+      show (Transl.Trellis.deinterleave ds >>= _) = _
+      rw [bindR_id _ _ _ (deinterleave_eq ds hch)]
+      cases hdd : Dmr.Trellis.deinterleave ds with
+      | error x => rfl
+      | ok dd =>
+        have hddl : dd.length = ds.length := by
+          unfold Dmr.Trellis.deinterleave at hdd
+          have := scatter_length _ _ _ _ _ hdd
+          simpa using this
+        have h196 : dd.length ≤ 196 := by omega
+        have hdd53 : dd.length < 2 ^ 53 := Nat.lt_of_le_of_lt h196 (by decide)
+        dsimp only
+        show (Transl.Trellis.dibits_to_points dd >>= _) = _
+        rw [bindR _ _ _ _ (dibits_to_points_eq dd hdd53)]
+        cases hp : dibitsToPoints dd with
+        | error x => rfl
+        | ok ps =>
+          dsimp only
+          show (Transl.Trellis.points_to_tribits (ps.map (fun x : Nat => (x : Int))) >>= _) = _
+          rw [bindR _ _ _ _ (points_to_tribits_eq ps)]
+          cases ht : pointsToTribits ps with
+          | error x => rfl
+          | ok ts =>
+            dsimp only
+            exact tribits_to_bits_eq ts
+  · have hc : ¬ ((len e == 196) = true) := by simp only [len_eq, beq_iff_eq]; omega
+    rw [if_neg hc, if_pos hl]; rfl
+
+
+/-- `decode(encoded, as_bytes=True)`, every bit string: the model's `decodeAsBytes` -/
+theorem decode_as_bytes_eq (e : Bits) : Transl.Trellis.decode_as_bytes e = ofR id (Dmr.Trellis.decodeAsBytes e) := by
+  have h : Transl.Trellis.decode_as_bytes e = (Transl.Trellis.decode e >>= fun d => pure (PyBits.tobytes d)) := by
+    unfold Transl.Trellis.decode_as_bytes Transl.Trellis.decode
+    simp only [bind_assoc]
+  rw [h, decode_eq]
+  unfold decodeAsBytes
+  cases Dmr.Trellis.decode e with
+  | error x => rfl
+  | ok b => rfl
+
 end Dmr.Transl.Trellis
